@@ -36,10 +36,11 @@ def run(chk):
     items.append(("internal", lambda: (n0.__setitem__(0, len(chk.obs)), L1m.internal_contracts(l1))))
     items.append(("completeness", lambda: L1m.completeness(l1)))
     run_kernels(chk, items)
-    L1m.settle(chk, groups["Add"], lambda: ptreplay.battery_binary("P.Add", chk.seed, lambda p, q: ref.ed_add(p, q)), "Point.Add")
-    L1m.settle(chk, groups["Subtract"], lambda: ptreplay.battery_binary("P.Subtract", chk.seed, lambda p, q: ref.ed_add(p, ref.ed_neg(q))), "Point.Subtract")
-    L1m.settle(chk, groups["Negate"], lambda: ptreplay.battery_unary("P.Negate", chk.seed, lambda p: ref.ed_neg(p)), "Point.Negate")
-    internal = [o for o in chk.obs[n0[0]:] if o.mode.startswith("ring mode") and not o.ok()]
+    by = lambda pre: [o for o in chk.obs if o.name.startswith(pre)]
+    L1m.settle(chk, by("Point.Add["), lambda: ptreplay.battery_binary("P.Add", chk.seed, lambda p, q: ref.ed_add(p, q)), "Point.Add")
+    L1m.settle(chk, by("Point.Subtract["), lambda: ptreplay.battery_binary("P.Subtract", chk.seed, lambda p, q: ref.ed_add(p, ref.ed_neg(q))), "Point.Subtract")
+    L1m.settle(chk, by("Point.Negate["), lambda: ptreplay.battery_unary("P.Negate", chk.seed, lambda p: ref.ed_neg(p)), "Point.Negate")
+    internal = [o for o in chk.obs if o.mode.startswith("ring mode") and not o.ok() and not o.name.startswith("Point.")]
 
     def internal_battery():
         return (ptreplay.battery_unary("P.MultByCofactor", chk.seed, lambda p: ref.ed_mul(8, p))
